@@ -151,6 +151,19 @@ Proof.
   split; [split; assumption|assumption].
 Qed.
 
+(* the same for the model of the code (rule enabled), wherever the by-specification rule cannot have
+   contributed to any of the three answers *)
+Theorem asg_trans_code : forall rx a b c,
+  wf_ty a = true -> wf_ty b = true -> wf_ty c = true ->
+  no_unit a = true -> no_unit b = true -> no_unit c = true ->
+  rule_free a b = true -> rule_free b c = true -> rule_free a c = true -> sz_nonneg c = true ->
+  asg rx true a b = true -> asg rx true b c = true -> asg rx true a c = true.
+Proof.
+  intros rx a b c Hwa Hwb Hwc Hna Hnb Hnc Rab Rbc Rac Hsc Hab Hbc.
+  rewrite (asg_rule_irrelevant rx a b Rab) in Hab. rewrite (asg_rule_irrelevant rx b c Rbc) in Hbc.
+  rewrite (asg_rule_irrelevant rx a c Rac). exact (asg_trans rx a b c Hwa Hwb Hwc Hna Hnb Hnc Hsc Hab Hbc).
+Qed.
+
 (* the statement without the size guard is false, in the model as in the code:
    Array[Integer,-1,5] >= Array[String,-1,0] >= Array[String,-1,-1], but not Array[Integer,-1,5] >= Array[String,-1,-1] *)
 Definition asg_trans_unguarded (hs : bool) : Prop := forall rx a b c,
